@@ -101,6 +101,9 @@ def check(prop, tier, seed):
         s.setdefault("index", i)
     results = run_shards(prop, shards, tier)
     agg = merge(results)
+    post = getattr(mod, "post", None)
+    if post:  # cross-shard comparison (e.g. digests computed under different hash seeds / orders)
+        post(results, agg)
     known = [k for k in load_known() if k["property"] == prop]
     open_known = {k["id"]: k for k in known if k["status"] == "open"}
 
